@@ -156,15 +156,30 @@ def class_label(t: str) -> str:
 def narrow_text(t: str, fails, in_domain=lambda s: True) -> str:
     """Greedy 1-minimal narrowing of a failing text: replace whole character classes by the
     letter a while the case still fails (`fails(s)` is truthy) and stays in the domain."""
-    cur = t
-    for cls in CLASS_ORDER:
-        if cls not in classes_of(cur):
-            continue
-        cand = without_class(cur, cls)
-        if cand == cur or not in_domain(cand):
-            continue
-        if fails(cand):
-            cur = cand
+    def by_class(cur):
+        for cls in CLASS_ORDER:
+            if cls not in classes_of(cur):
+                continue
+            cand = without_class(cur, cls)
+            if cand == cur or not in_domain(cand):
+                continue
+            if fails(cand):
+                cur = cand
+        return cur
+
+    cur = by_class(t)
+    if len(classes_of(cur)) > 1:
+        # several classes left (often only because replacing one leaves the domain, e.g. the normal form of
+        # notes): delete single characters while the text stays in the domain and keeps failing
+        progress = True
+        while progress:
+            progress = False
+            for i in range(len(cur)):
+                cand = cur[:i] + cur[i + 1:]
+                if cand and in_domain(cand) and fails(cand):
+                    cur, progress = cand, True
+                    break
+        cur = by_class(cur)
     # triple quote -> try a single quote in its place
     if "'''" in cur:
         cand = cur.replace("'''", "'aa")
